@@ -14,10 +14,18 @@
  *                                   fault (on the files of the message at the head of the heap): o = open_read of the
  *                                   channel file fails, i = open_read of info/<id> fails (both: "trouble" exit, event p0),
  *                                   u = unlink of the channel file fails, s = stat of the other channel file fails (EIO)
- *   f                               SIGTERM: pqfinish()
+ *   f[,<c>:<id>,...]                SIGTERM: pqfinish() (+ pass_finish()); utimes() fails with EIO on the listed channel files
+ *   d[,<fault>]                     the pqdone part of pass_do() (flagexitasap set, so pass_dochan returns at once): prioq_min/
+ *                                   delmin(&pqdone) + the real messdone(); fault (on the files of the message at the head of
+ *                                   pqdone): l/r = stat of local/remote/<id> fails, t = stat of todo/<id>, n = stat of info/<id>,
+ *                                   b = stat of bounce/<id> (injectbounce fails), u = unlink of info/<id>
+ *   p<c>,<letters>,x<k>             as p, but record k of the started message's channel file has an unknown type ('X') during the
+ *                                   pass (restored afterwards): the "unknown record type" exit;  ...,r = read() of the channel
+ *                                   file fails: the "trouble reading" exit (before the first record: k = 0)
  * events (same separators), <q> = heap array as dt:id,… or '-':
  *   m | t | L/<q0>/<q1>/<done> | a/<q0>/<q1> | w<wakeup> | f/<mt0>/<mt1>  (mt = mtime:id of each channel file)
  *   p<id>,<retry>,<dying>,<ndel>,<records|gone>,<paragraphs>,<toolong>/<q0>/<q1>/<done>   (id 0 = nothing started)
+ *   d<id>,<gone>/<done>             id = message messdone() was called for (0 = none), gone = info/<id> no longer exists
  */
 #include "auto_split.h"
 #define HMAXMSG 16
@@ -26,6 +34,7 @@ static int hnmsg;
 static char hq_dir[256];
 static int hist_ready;
 static int hpipe[2][2];
+static int hqc_to_r = -1, hqc_from_w = -1;   /* the harness's ends of the qmail-clean pipes (daemon side: fd 5 / fd 6) */
 static hbuf hscript, hevents;
 static long h_lifetime;
 
@@ -39,6 +48,16 @@ static void hist_init(void) {
   snprintf(hq_dir, sizeof hq_dir, "%s/c15q-XXXXXX", cwd);
   if (!mkdtemp(hq_dir)) { perror("mkdtemp"); exit(95); }
   if (chdir(hq_dir) == -1) { perror("chdir"); exit(95); }
+  { /* qmail-clean stand-in: messdone() writes the file name to fd 5 and reads one byte from fd 6 */
+    int a[2], b[2]; if (pipe(a) == -1 || pipe(b) == -1) { perror("pipe"); exit(95); }
+    int ar = fcntl(a[0], F_DUPFD, 60), aw = fcntl(a[1], F_DUPFD, 60), br = fcntl(b[0], F_DUPFD, 60), bw = fcntl(b[1], F_DUPFD, 60);
+    close(a[0]); close(a[1]); close(b[0]); close(b[1]);
+    if (dup2(aw, 5) == -1 || dup2(br, 6) == -1) { perror("dup2"); exit(95); }
+    close(aw); close(br); hqc_to_r = ar; hqc_from_w = bw;
+    fcntl(hqc_to_r, F_SETFL, O_NONBLOCK); fcntl(hqc_from_w, F_SETFL, O_NONBLOCK);
+    substdio_fdbuf(&sstoqc, write, 5, sstoqcbuf, sizeof sstoqcbuf);
+    substdio_fdbuf(&ssfromqc, h_read, 6, ssfromqcbuf, sizeof ssfromqcbuf);
+  }
   static const char *top[] = { "info", "local", "remote", "mess" };
   char b[64];
   for (int k = 0; k < 4; k++) { hmk(top[k]); for (int i = 0; i < auto_split; i++) { snprintf(b, sizeof b, "%s/%d", top[k], i); hmk(b); } }
@@ -64,7 +83,9 @@ static void hist_reset(void) {
     hpath(p, "local/", hmsgs[i].id, 1); unlink(p);
     hpath(p, "remote/", hmsgs[i].id, 1); unlink(p);
     hpath(p, "bounce/", hmsgs[i].id, 0); unlink(p);
+    hpath(p, "mess/", hmsgs[i].id, 1); unlink(p);
   }
+  h_read_fail_fd = -1;
   hnmsg = 0;
   pqchan[0].len = pqchan[1].len = pqdone.len = pqfail.len = 0;
   for (int c = 0; c < 2; c++) {
@@ -108,6 +129,8 @@ static void hist_step(const char *st) {
         hpath(p, "info/", id, 1);
         FILE *f = fopen(p, "w"); fputs("Fsender@example.org", f); fputc(0, f); fclose(f);
         hset_mtime(p, birth);
+        hpath(p, "mess/", id, 1);
+        f = fopen(p, "w"); fputs("Subject: x\n\nbody\n", f); fclose(f);
       }
       hmsgs[k].has[c] = 1;
       hpath(p, c ? "remote/" : "local/", id, 1);
@@ -127,7 +150,16 @@ static void hist_step(const char *st) {
     case 'a': flagrunasap = 1; if (flagrunasap) { flagrunasap = 0; pqrun(); } hev("a"); hev_pq(&pqchan[0]); hev_pq(&pqchan[1]); return;
     case 'w': { datetime_sec wk = recent + SLEEP_FOREVER; pass_selprep(&wk); hev("w%ld", (long)wk); return; }
     case 'f': {
+      h_poison_clear();
+      if (st[1] == ',') {
+        char tmp[128]; snprintf(tmp, sizeof tmp, "%s", st + 2); char *sv = 0;
+        for (char *t = strtok_r(tmp, ",", &sv); t; t = strtok_r(0, ",", &sv)) {
+          int fc; unsigned long fid;
+          if (sscanf(t, "%d:%lu", &fc, &fid) == 2 && (fc == 0 || fc == 1)) { hpath(p, fc ? "remote/" : "local/", fid, 1); h_poison_add(3, p); }
+        }
+      }
       flagexitasap = 1; pqfinish(); if (pass_finish) pass_finish(); flagexitasap = 0;   /* the exit sequence of main() */
+      h_poison_clear();
       hev("f");
       for (int c = 0; c < 2; c++) {
         hev("/"); int n = 0;
@@ -139,13 +171,38 @@ static void hist_step(const char *st) {
       }
       return;
     }
+    case 'd': {
+      char fault = st[1] == ',' ? st[2] : 0;
+      unsigned long did = 0;
+      h_poison_clear();
+      if (pqdone.len && pqdone.p[0].dt <= recent) did = pqdone.p[0].id;
+      if (fault && did) {
+        switch (fault) {
+          case 'l': hpath(p, "local/", did, 1); h_poison_add(0, p); break;
+          case 'r': hpath(p, "remote/", did, 1); h_poison_add(0, p); break;
+          case 't': hpath(p, "todo/", did, 0); h_poison_add(0, p); break;
+          case 'n': hpath(p, "info/", did, 1); h_poison_add(0, p); break;
+          case 'b': hpath(p, "bounce/", did, 0); h_poison_add(0, p); break;
+          case 'u': hpath(p, "info/", did, 1); h_poison_add(1, p); break;
+          default: hev("bad"); return;
+        }
+      }
+      if (write(hqc_from_w, "+", 1) != 1) { /* pipe full of unread answers: fine */ }
+      flagexitasap = 1; pass_do(); flagexitasap = 0;     /* pass_dochan returns at once; pqfail is empty in S histories */
+      { char junk[512]; while (read(hqc_to_r, junk, sizeof junk) > 0) ; }
+      h_poison_clear();
+      int gone = 1;
+      if (did) { struct stat sb; hpath(p, "info/", did, 1); gone = stat(p, &sb) == -1; }
+      hev("d%lu,%d", did, gone); hev_pq(&pqdone);
+      return;
+    }
     case 'p': {
-      int c = st[1] - '0'; char lbuf[32] = "Z"; char fault = 0;
+      int c = st[1] - '0'; char lbuf[32] = "Z"; char fault = 0; int cutk = -1; long cutoff = -1, cutmt0 = 0; char cutorig = 0; char cutpath[128];
       if (c < 0 || c > 1) { hev("bad"); return; }
       if (st[2] == ',') {
         const char *l = st + 3; const char *e = strchr(l, ','); size_t n = e ? (size_t)(e - l) : strlen(l);
         if (n > 0 && n < sizeof lbuf) { memcpy(lbuf, l, n); lbuf[n] = 0; }
-        if (e && e[1]) fault = e[1];
+        if (e && e[1]) { fault = e[1]; if (fault == 'x') cutk = atoi(e + 2); }
       }
       const char *letters = lbuf;
       size_t nl = strlen(letters);
@@ -157,12 +214,28 @@ static void hist_step(const char *st) {
           case 'i': hpath(p, "info/", fid, 1); h_poison_add(2, p); break;
           case 'u': hpath(p, c ? "remote/" : "local/", fid, 1); h_poison_add(1, p); break;
           case 's': hpath(p, c ? "local/" : "remote/", fid, 1); h_poison_add(0, p); break;
+          case 'x': {            /* record cutk gets the type byte 'X' for the duration of the pass */
+            hpath(cutpath, c ? "remote/" : "local/", fid, 1);
+            struct stat sb0; long mt0 = 0; if (stat(cutpath, &sb0) == 0) mt0 = sb0.st_mtime; cutmt0 = mt0;
+            FILE *f = fopen(cutpath, "r+");
+            if (f) { int ch, start = 1, k = 0; long off = 0;
+              while ((ch = fgetc(f)) != EOF) { if (start) { if (k == cutk) { cutoff = off; cutorig = (char)ch; break; } k++; } start = (ch == 0); off++; }
+              if (cutoff >= 0) { fseek(f, cutoff, SEEK_SET); fputc('X', f); }
+              fclose(f); if (cutoff >= 0) hset_mtime(cutpath, mt0); }
+            break; }
+          case 'r': { int probe = dup(0); if (probe >= 0) { close(probe); h_read_fail_fd = probe; } break; }
           default: hev("bad"); return;
         }
       }
+      /* a pass that is cut short before its first delivery closes inside this very call: remember what it will open */
+      int jfree = -1; for (int jj = 0; jj < numjobs; jj++) if (!jo[jj].refs) { jfree = jj; break; }
+      unsigned long willstart = (!pass[c].id && jfree >= 0 && pqchan[c].len && pqchan[c].p[0].dt <= recent) ? pqchan[c].p[0].id : 0;
       pass_dochan(c);
-      if (!pass[c].id) { h_poison_clear(); hev("p0"); hev_pq(&pqchan[0]); hev_pq(&pqchan[1]); hev_pq(&pqdone); return; }
-      unsigned long id = pass[c].id; int j = pass[c].j;
+      h_read_fail_fd = -1;
+      int closed_at_once = !pass[c].id && willstart && (fault == 'x' || fault == 'r') && jo[jfree].id == willstart && jo[jfree].channel == c;
+      if (!pass[c].id && !closed_at_once) { h_poison_clear(); if (cutoff >= 0) { FILE *f = fopen(cutpath, "r+"); if (f) { fseek(f, cutoff, SEEK_SET); fputc(cutorig, f); fclose(f); hset_mtime(cutpath, cutmt0); } }
+        hev("p0"); hev_pq(&pqchan[0]); hev_pq(&pqchan[1]); hev_pq(&pqdone); return; }
+      unsigned long id = closed_at_once ? willstart : pass[c].id; int j = closed_at_once ? jfree : pass[c].j;
       long retry = jo[j].retry; int dying = jo[j].flagdying;
       for (int guard = 0; pass[c].id && guard < 64; guard++) { comm_buf[c].len = 0; pass_dochan(c); }
       comm_buf[c].len = 0;
@@ -175,6 +248,7 @@ static void hist_step(const char *st) {
         ndel++;
       }
       h_poison_clear();
+      if (cutoff >= 0) { FILE *f = fopen(cutpath, "r+"); if (f) { fseek(f, cutoff, SEEK_SET); fputc(cutorig, f); fclose(f); } }
       /* observe the queue files */
       char recs[32]; int nr = 0;
       hpath(p, c ? "remote/" : "local/", id, 1);
@@ -222,8 +296,11 @@ static long hmin_due(int *cc) {        /* earliest due time over both channel he
 static void hist_generate(int n, int shard, int nshards) {
   static const long lifetimes[] = { 0, 1, 100, 3600, 604800, 604800, 2000000 };
   static const char *letterss[] = { "Z", "K", "D", "ZK", "ZZD", "KZ?", "?", "ZDK?",
-                                    "Z,o", "Z,i", "K,u", "KD,u", "K,s", "D,s", "ZK,u", "Z,s", "K,o", "DK,i" };
-#define NLET() (h_below(5) == 0 ? 8 + h_below(10) : h_below(8))
+                                    "Z,o", "Z,i", "K,u", "KD,u", "K,s", "D,s", "ZK,u", "Z,s", "K,o", "DK,i",
+                                    "K,x0", "KZ,x1", "Z,x1", "KD,x2", "K,r", "ZK,r", "D,x1", "K,x3" };
+  static const char *dsteps[] = { "d", "d", "d", "d,l", "d,r", "d,t", "d,n", "d,b", "d,u", "d,u" };
+#define NLET() (h_below(5) == 0 ? 8 + h_below(18) : h_below(8))
+#define DSTEP() hist_step(dsteps[h_below(10)])
   char st[128];
   for (int r = 0; r < n; r++) {
     if ((r % nshards) != shard) continue;
@@ -257,10 +334,18 @@ static void hist_generate(int n, int shard, int nshards) {
         if (h_below(5) == 0) hist_step("w");
         snprintf(st, sizeof st, "p%d,%s", c, letterss[NLET()]); hist_step(st);
         if (h_below(3) == 0) { snprintf(st, sizeof st, "p%d,%s", (int)h_below(2), letterss[NLET()]); hist_step(st); }
+        if (pqdone.len && h_below(2)) { DSTEP(); if (h_below(3) == 0) { snprintf(st, sizeof st, "t%ld", h_clock + (long)SLEEP_SYSFAIL - 1 + (long)h_below(3)); hist_step(st); DSTEP(); } }
       } else if (r < 7) { snprintf(st, sizeof st, "p%d,%s", (int)h_below(2), letterss[NLET()]); hist_step(st); }
-      else if (r == 7) hist_step("w");
+      else if (r == 7) { if (h_below(2)) hist_step("w"); else DSTEP(); }
       else if (r == 8) { hist_step("a"); if (h_below(2)) { snprintf(st, sizeof st, "p%d,%s", (int)h_below(2), letterss[NLET()]); hist_step(st); } }
-      else if (r == 9) { hist_step("f"); hist_step("L"); }
+      else if (r == 9) {
+        int fc = h_below(2);
+        if (h_below(3) == 0 && pqchan[fc].len) {      /* utimes fails on one or two scheduled channel files */
+          int n2 = snprintf(st, sizeof st, "f,%d:%lu", fc, pqchan[fc].p[h_below(pqchan[fc].len)].id);
+          if (h_below(3) == 0 && pqchan[1 - fc].len) snprintf(st + n2, sizeof st - n2, ",%d:%lu", 1 - fc, pqchan[1 - fc].p[0].id);
+          hist_step(st);
+        } else hist_step("f");
+        hist_step("L"); }
       else if (r == 10) { snprintf(st, sizeof st, "t%ld", h_clock + (long)h_below((uint32_t)(lt / 2 + 1000))); hist_step(st); }
       else if (hnmsg) {                      /* the expiry boundary of some message: birth + lifetime -1/0/+1/+2 */
         long t = hmsgs[h_below(hnmsg)].birth + lt - 1 + (long)h_below(4);
@@ -271,6 +356,7 @@ static void hist_generate(int n, int shard, int nshards) {
     }
     /* drain: everything that is due now, then jump past the last due time */
     for (int c = 0; c < 2; c++) for (int k = 0; k < 2; k++) { snprintf(st, sizeof st, "p%d,%s", c, letterss[NLET()]); hist_step(st); }
+    for (int k = 0; k < 2 && pqdone.len; k++) DSTEP();
     hist_end();
   }
 }
